@@ -24,6 +24,7 @@ ASSUMPTIONS = ["area clause on closed rings with integer coordinates inside the 
                "length compared exactly when every segment length is rational, to 1e-12 relative "
                "otherwise (float64 / integer subtypes); float32 arrays compute in float32: exact "
                "cases only"]
+SPLIT_KINDS = True         # thorough tier: one shard per geometry kind
 DECIDING_COUNTERS = ["length_checked", "area_checked", "boundary_checked"]
 
 GROUPS = [["point", "multipoint", "line", "ring"], ["multiline", "polygon"], ["multipolygon"]]
